@@ -256,17 +256,26 @@ func (c41) NewRun(plan *simrt.Source, job *harn.Job) harn.Run {
 		nr = 1
 	}
 	nc := plan.Draw(3)
+	// buffer sizes: mostly a few bytes (many operations, cheap), sometimes around
+	// the thresholds implementations like to special-case (bufio's 4096, 32 KiB
+	// copy buffers, 64 KiB pipe buffers)
+	size := func() int {
+		if plan.Chance(120) {
+			return []int{511, 4095, 4096, 4097, 8193, 10000, 32769, 70000}[plan.Draw(8)]
+		}
+		return 1 + plan.Draw(6)
+	}
 	for i := 0; i < nr; i++ {
 		t := taskPlan{Kind: "reader", Delay: plan.Draw(4)}
 		for k, n := 0, 1+plan.Draw(maxOps); k < n; k++ {
-			t.Ops = append(t.Ops, 1+plan.Draw(6))
+			t.Ops = append(t.Ops, size())
 		}
 		r.tasks = append(r.tasks, t)
 	}
 	for i := 0; i < nw; i++ {
 		t := taskPlan{Kind: "writer", Delay: plan.Draw(4)}
 		for k, n := 0, 1+plan.Draw(maxOps); k < n; k++ {
-			t.Ops = append(t.Ops, 1+plan.Draw(6))
+			t.Ops = append(t.Ops, size())
 		}
 		r.tasks = append(r.tasks, t)
 	}
@@ -276,7 +285,11 @@ func (c41) NewRun(plan *simrt.Source, job *harn.Job) harn.Run {
 	if nr > 0 {
 		t := taskPlan{Kind: "feeder", Delay: plan.Draw(6)}
 		for k, n := 0, plan.Draw(6); k < n; k++ {
-			t.Ops = append(t.Ops, 1+plan.Draw(10))
+			if plan.Chance(100) {
+				t.Ops = append(t.Ops, 4000+plan.Draw(6000))
+			} else {
+				t.Ops = append(t.Ops, 1+plan.Draw(10))
+			}
 		}
 		r.tasks = append(r.tasks, t)
 	}
@@ -352,10 +365,13 @@ func (r *c41run) doRead(task string, size int) {
 }
 
 func (r *c41run) doWrite(task string, size int) {
+	// unique content per call (fewer than 256 writes per run): the tag makes even
+	// one-byte buffers distinct, the position terms make every offset of a large
+	// buffer recognisable
 	buf := make([]byte, size)
+	r.wseq++
 	for i := range buf {
-		r.wseq++
-		buf[i] = r.wseq
+		buf[i] = r.wseq + byte(i*7) + byte((i>>8)*13)
 	}
 	cc := &connCall{task: task, write: true, buf: buf, want: append([]byte(nil), buf...), afterClose: r.closeReturned, seq: len(r.conn)}
 	r.conn = append(r.conn, cc)
@@ -404,7 +420,7 @@ func (r *c41run) checkCall(cc *connCall) {
 			continue
 		}
 		if cc.write {
-			if len(c.data) >= len(cc.want) && string(c.data[:len(cc.want)]) == string(cc.want) && len(c.data) == len(cc.want) {
+			if string(c.data) == string(cc.want) {
 				sc = c
 				break
 			}
@@ -437,11 +453,51 @@ func (r *c41run) checkCall(cc *connCall) {
 		}
 		return
 	}
+	if cc.write && sc == nil && r.chunkedWrite(cc) {
+		return
+	}
 	if closedEOF {
 		r.sim.Probe("op-ended-by-close")
 		return
 	}
 	r.fail("oracle:result", fmt.Sprintf("%s by %s returned (%d, %v) which is neither the result of its own call to the underlying stream (%s) nor EOF after Close", what, cc.task, cc.n, cc.err, descr(sc)), what+" result is not its own stream result")
+}
+
+// chunkedWrite accepts an implementation that hands one Write to the stream in
+// several pieces (the statement does not forbid it): the pieces must be
+// CONSECUTIVE calls to the stream — nothing of another Write in between, or the
+// data would not arrive "in order and unmodified" — each carrying the next part
+// of the caller's buffer, and the Write must report the total the stream
+// accepted together with the last piece's error.
+func (r *c41run) chunkedWrite(cc *connCall) bool {
+	calls := r.out.calls
+	for i := range calls {
+		pos, j := 0, i
+		var last *srcCall
+		for ; j < len(calls); j++ {
+			c := calls[j]
+			if !c.returned || c.delivered || pos+len(c.data) > len(cc.want) || string(c.data) != string(cc.want[pos:pos+len(c.data)]) || len(c.data) == 0 {
+				break
+			}
+			pos += c.n
+			last = c
+			if c.n < len(c.data) || c.err != nil || pos == len(cc.want) {
+				j++
+				break
+			}
+		}
+		if last == nil || j-i < 2 {
+			continue
+		}
+		if cc.n == pos && cc.err == last.err {
+			for k := i; k < j; k++ {
+				calls[k].delivered = true
+			}
+			r.sim.Probe("write-relayed-in-pieces")
+			return true
+		}
+	}
+	return false
 }
 
 func descr(c *srcCall) string {
